@@ -110,8 +110,11 @@ def call(fn):
 
 
 def qdom(S, v):
+    """the vertices at which the QUERIES are specified: every link listed at v is a two-ended link with exactly two
+    entries.  (The structural calls - unlink, dontdup - are specified on the wider domain EGStructure!QDom, "at least two
+    entries"; what neighbors() answers at a vertex that sits in THIRD place of a two-ended link is not stated anywhere.)"""
     n = len(S["kind"])
-    return all(1 <= e <= n and S["kind"][e - 1] != "N" and len(S["ends"][e - 1]) >= 2 for e in S["vl"][v - 1])
+    return all(1 <= e <= n and S["kind"][e - 1] != "N" and len(S["ends"][e - 1]) == 2 for e in S["vl"][v - 1])
 
 
 def probe(q, a, res, f=NOF, g=NOF, M=(-1,), attr=()):
@@ -247,6 +250,12 @@ def exec_probe(w, p, cache):
     return out
 
 
+def whole(S):
+    """every link has exactly two ends and neither is None: other() then never answers None, so a traversal never
+    walks into None (a two-ended link that was given a third entry answers None to the vertex in third place)"""
+    return all(len(S["ends"][e]) == 2 and 0 not in S["ends"][e] for e in range(S["nl"]))
+
+
 def descs_nb(S, filters=NB_FILTERS):
     for v in range(1, S["bv"] + 1):
         if qdom(S, v):
@@ -263,7 +272,7 @@ def descs_fl(S):
 
 def msets(S):
     vs = list(range(1, S["bv"] + 1))
-    full = all(0 not in S["ends"][e] for e in range(S["nl"]))
+    full = whole(S)
     out = [(-1,)] if full else []
     for r in range(1, len(vs) + 1):
         out.extend(itertools.combinations(vs, r))
@@ -370,7 +379,7 @@ def descs_cache(S, full, nofilter=False):
                 # ... and the unfiltered question once more: whatever the filtered calls put into the memo (the last one
                 # with a callable that is falsy) must not be served for it
                 yield desc("nb", (v, 1, 1))
-    if all(qdom(S, v) for v in range(1, n + 1)) and all(0 not in S["ends"][e] for e in range(S["nl"])):
+    if all(qdom(S, v) for v in range(1, n + 1)) and whole(S):
         for s in range(1, n + 1):
             for q in (("bft", "dftr", "dfti") if full else ("bft", "dfti" if s % 2 else "dftr")):
                 for d in ((0, 1, 2) if full else (0, 1)):
